@@ -157,6 +157,14 @@ def translate_source():
     except Exception as e:
         open(out15, 'w').write('/-! source-level translation of CfgKeyData.__str__ failed on this tree -/\n')
         status['KeyStr'] = 'untranslatable: translator failed (' + type(e).__name__ + ')'
+    # and the command framing of the gpsd back end
+    out16 = os.path.join(LEAN, 'UbxModel', 'Gen', 'SrcGpsdTx.lean')
+    try:
+        r = sh([PY, os.path.join(ROOT, 'tools', 'pysrc2lean_gpsdtx.py'), REPO, out16], timeout=120)
+        status['GpsdTx'] = r.stdout.strip().splitlines()[-1]
+    except Exception as e:
+        open(out16, 'w').write('/-! source-level translation of the gpsd command framing failed on this tree -/\n')
+        status['GpsdTx'] = 'untranslatable: translator failed (' + type(e).__name__ + ')'
     # and the frame registry
     out10 = os.path.join(LEAN, 'UbxModel', 'Gen', 'SrcFactory.lean')
     try:
@@ -198,6 +206,7 @@ SRC_THEOREMS = {
                'setattr_field', 'setattr_other', 'setattr_early', 'getattr_field', 'getattr_other', 'getattr_missing', 'setitem_value_only', 'getattr_after_setattr'],
     'Str': ['item_str_named', 'item_str_total', 'fields_loop', 'frame_str_names', 'frame_str_total', 'frame_str_base'],
     'KeyStr': ['low_and_ff', 'low_and_fff', 'header_low', 'keystr_eq'],
+    'GpsdTx': ['gtx_header', 'gtx_cmd', 'gtx_after_setup', 'gtx_success'],
     'Factory': ['getitem_setitem', 'getitem_err', 'lookupR_register', 'agree_empty', 'fac_register', 'fac_build_with_data', 'fac_build'],
     'Gpsd': ['g_parse_version', 'g_devices_loop', 'g_parse_devices', 'g_line', 'g_lines', 'g_parse_gpsd_msg', 'absG_init', 'g_ready'],
     'Server': ['srv_check_poll', 'srv_check_ack_nak', 'srv_check_mga', 'srv_send', 'srv_wait', 'srv_set', 'srv_set_mga',
